@@ -514,6 +514,8 @@ var apiKinds = []struct {
 	{"KSetBoxDecoder", []string{"mp4.SetBoxDecoder"}},
 	{"KRemoveBoxDecoder", []string{"mp4.RemoveBoxDecoder"}},
 	{"KTouch", []string{"mp4.FtypBox.AddCompatibleBrands", "mp4.StypBox.AddCompatibleBrands", "mp4.MdatBox.AddSampleData"}},
+	{"KDecodeLazy", []string{"mp4.DecodeFile", "mp4.WithDecodeMode", "mp4.DecodeMdatLazily"}},
+	{"KReadData", []string{"mp4.MdatBox.ReadData", "mp4.MdatBox.CopyData", "mp4.MdatBox.PayloadAbsoluteOffset", "mp4.MdatBox.IsLazy"}},
 }
 
 type varName struct{ pkg, name string }
